@@ -19,39 +19,41 @@ open Feems Feems.KV Feems.Fuel
 section additive
 variable {M : Type} [AddCommMonoid M]
 
-/-- Adding records adds the mass of every fuel kind. -/
-theorem add_mass (k : Kind) (a b : Rec M) (ha : WellFormed a) (hb : WellFormed b) :
-    massOf k (add a b) = massOf k a + massOf k b := by
-  rw [add_eq_spec a b hb]; exact massOf_addSpec k a b ha
+/-- Adding records adds the mass of every fuel kind — for all records, also those that list a kind
+twice (a dual-fuel engine whose pilot fuel is of the same kind as its main fuel). -/
+theorem add_mass (k : Kind) (a b : Rec M) : massOf k (add a b) = massOf k a + massOf k b :=
+  massOf_add k a b
 
 /-- … and therefore the total. -/
-theorem add_total (a b : Rec M) (ha : WellFormed a) (hb : WellFormed b) :
-    total (add a b) = total a + total b := by
-  rw [add_eq_spec a b hb]; exact total_addSpec a b ha
+theorem add_total (a b : Rec M) : total (add a b) = total a + total b := total_add a b
+
+/-- No kind appears or disappears. -/
+theorem add_kinds (k : Kind) (a b : Rec M) : k ∈ kinds (add a b) ↔ k ∈ kinds a ∨ k ∈ kinds b :=
+  mem_kinds_add k a b
 
 /-- The sum of two well-formed records is well formed (no kind listed twice). -/
 theorem add_wellFormed (a b : Rec M) (ha : WellFormed a) (hb : WellFormed b) :
-    WellFormed (add a b) := by
-  rw [add_eq_spec a b hb]; exact wellFormed_addSpec a b ha hb
+    WellFormed (add a b) := wellFormed_add a b ha hb
+
+/-- On well-formed records the sum is the union merge, kinds of the left operand first. -/
+theorem add_is_union_merge (a b : Rec M) (ha : WellFormed a) (hb : WellFormed b) :
+    add a b = addSpec a b := add_eq_spec a b ha hb
 
 /-- Operand order does not matter (as a map kind ↦ mass). -/
-theorem add_comm (k : Kind) (a b : Rec M) (ha : WellFormed a) (hb : WellFormed b) :
-    massOf k (add a b) = massOf k (add b a) := by
-  rw [add_mass k a b ha hb, add_mass k b a hb ha, _root_.add_comm]
+theorem add_comm (k : Kind) (a b : Rec M) : massOf k (add a b) = massOf k (add b a) := by
+  rw [add_mass, add_mass, _root_.add_comm]
 
 /-- Grouping does not matter. -/
-theorem add_assoc (k : Kind) (a b c : Rec M) (ha : WellFormed a) (hb : WellFormed b)
-    (hc : WellFormed c) : massOf k (add (add a b) c) = massOf k (add a (add b c)) := by
-  rw [add_mass k _ c (add_wellFormed a b ha hb) hc, add_mass k a b ha hb,
-    add_mass k a _ ha (add_wellFormed b c hb hc), add_mass k b c hb hc, _root_.add_assoc]
+theorem add_assoc (k : Kind) (a b c : Rec M) :
+    massOf k (add (add a b) c) = massOf k (add a (add b c)) := by
+  simp only [add_mass, _root_.add_assoc]
 
 /-- The empty record is neutral on both sides (list equality, not only as a map). -/
 theorem add_empty_left (b : Rec M) : add [] b = b := rfl
 theorem add_empty_right (a : Rec M) : add a [] = a := by
-  unfold add
-  split
-  · rename_i h; exact (List.isEmpty_iff.mp h).symm
-  · simp [addMatched, firstOf, addRest]
+  induction a with
+  | nil => rfl
+  | cons e a ih => simp [add, takeFirst, ih]
 
 end additive
 
@@ -126,8 +128,36 @@ example : WellFormed ([(dieselF, (3:Rat)), (gasF, 5)] : Rec Rat) ∧
       = [(dieselF, 3), (gasF, 12), (gasBioEU, 11)] := by
   refine ⟨by decide, by decide, by decide +kernel⟩
 
-/-- Well-formedness of the *left* operand is needed: with a kind listed twice on the left the
-implementation's matching adds the right-hand mass twice (3+4 and 5+4: total 16, not 12). -/
-example : total (add [(dieselF, (3:Rat)), (dieselF, 5)] [(dieselF, 4)]) = 16 := by decide +kernel
+/-- Records that list a kind twice (main and pilot fuel of one kind) are covered: each right-hand
+entry finds one partner. -/
+example : add [(dieselF, (3:Rat)), (dieselF, 5)] [(dieselF, 4), (dieselF, 1)]
+    = [(dieselF, 7), (dieselF, 6)] := by decide +kernel
+
+/-- The addition as found (before the repair of D20) added the right-hand entry twice when the
+left operand listed its kind twice (3+4 and 5+4: total 16, not 12) … -/
+theorem legacy_counts_twice :
+    total (addLegacy [(dieselF, (3:Rat)), (dieselF, 5)] [(dieselF, 4)]) = 16 := by decide +kernel
+
+/-- … which the repaired addition does not. -/
+example : total (add [(dieselF, (3:Rat)), (dieselF, 5)] [(dieselF, 4)]) = 12 := by decide +kernel
+
+/-- On well-formed right operands the two coincide on the left operand's entries: the repair
+changes nothing for records without repeated kinds. -/
+theorem legacy_eq_of_wellFormed {M : Type} [AddCommMonoid M] (a b : Rec M) (ha : WellFormed a)
+    (hb : WellFormed b) : massOf k (addLegacy a b) = massOf k (add a b) := by
+  have h1 : addLegacy a b = addSpec a b := by
+    unfold addLegacy addSpec
+    split
+    · rename_i h
+      have : a = [] := List.isEmpty_iff.mp h
+      subst this; simp [kinds]
+    · congr 1
+      · unfold addMatched
+        apply List.map_congr_left
+        intro e _
+        rw [← firstOf_eq e.1 b hb]
+        cases firstOf e.1 b <;> simp
+      · exact addRest_eq_filter _ _ _ hb (by simp)
+  rw [h1, add_eq_spec a b ha hb]
 
 end Feems.Props.C18
